@@ -134,6 +134,49 @@ fn judge(cfg: &Cfg, nframes: usize, well_formed_lang: bool, differential: bool, 
     }
 }
 
+/// Builder chains that must be equivalent to handing over the complete Metadata value:
+/// with_metadata(title) first, then set_create_time / set_language in either order; and the two
+/// setters alone in either order. (with_metadata replaces the whole value by design, so chains
+/// that call it after a setter are not claimed.)
+fn judge_chains(order: (u64, u64), t: &mut Tally) {
+    use muxide::api::{Metadata, MuxerBuilder, VideoCodec};
+    let mut k = 0;
+    for title in [None, Some("Chained é")] {
+        for time in [None, Some(951_782_400u64)] {
+            for lang in [None, Some("fra")] {
+                for chain in 0..2 {
+                    k += 1;
+                    t.evaluations += 1;
+                    let mut out = Vec::new();
+                    {
+                        let mut b = MuxerBuilder::new(&mut out).video(VideoCodec::H264, 640, 480, 30.0);
+                        if let Some(ti) = title {
+                            b = b.with_metadata(Metadata::new().with_title(ti));
+                        }
+                        let steps: [u8; 2] = if chain == 0 { [0, 1] } else { [1, 0] };
+                        for s in steps {
+                            if s == 0 {
+                                if let Some(tm) = time {
+                                    b = b.set_create_time(tm);
+                                }
+                            } else if let Some(l) = lang {
+                                b = b.set_language(l);
+                            }
+                        }
+                        let mut m = b.build().expect("build");
+                        let _ = m.finish_in_place();
+                    }
+                    let meta = if title.is_none() && time.is_none() && lang.is_none() { None } else { Some(MMeta { title: title.map(|s| s.to_string()), time, lang: lang.map(|s| s.to_string()) }) };
+                    let m = parse_movie(&out, "prog");
+                    for (s, d) in metadata_issues(&m, &meta, true) {
+                        t.violation(&format!("C18/builder-chain/{s}"), (order.0, order.1 + k), || format!("with_metadata(title={title:?}) then {} (time {time:?}, language {lang:?}): {d}", if chain == 0 { "set_create_time, set_language" } else { "set_language, set_create_time" }), || json!({"engine": "E2-c18-chain", "title": title, "time": time, "lang": lang, "chain": chain}));
+                    }
+                }
+            }
+        }
+    }
+}
+
 enum Item {
     Days(i64, i64, Vec<u64>),
     SpecialDays(i64, i64),
@@ -220,6 +263,7 @@ pub fn check(ctx: &Ctx) -> i32 {
             }
         }
         Item::Combos => {
+            judge_chains((idx as u64, 50_000_000), t);
             let titles: Vec<Option<String>> = vec![None, Some(String::new()), Some("a".into()), Some("é".into()), Some("日本".into()), Some("\u{1d11e}".into()), Some("x".repeat(255)), Some("y".repeat(256)), Some("z".repeat(70000)), Some("nul\0inside".into())];
             let times = [None, Some(0u64), Some(951_782_400), Some(4_102_444_799)];
             let langs: Vec<(Option<String>, bool)> = vec![(None, true), (Some("eng".into()), true), (Some("zzz".into()), true), (Some("".into()), false), (Some("e".into()), false), (Some("en".into()), false), (Some("ENG".into()), false), (Some("e1g".into()), false), (Some("éng".into()), false), (Some("engl".into()), false)];
@@ -251,7 +295,7 @@ pub fn check(ctx: &Ctx) -> i32 {
         &tally,
         Meta {
             level: "exploration",
-            rule: format!("creation times: every day from 1970-01-01 to {y:04}-{m:02}-{d:02} at seconds-of-day {secs:?}{}; all 17576 lower-case three-letter language codes on A/V files (every track's mdhd); the product of 10 titles (empty, 1-4 byte scalars, 255/256/70000 bytes, embedded NUL) x 4 creation times x 10 language values (3 well-formed, 7 malformed - for those only well-formedness is demanded) x 0-2 frames x 4 codec/audio/layout configurations, each also compared with the same history without metadata (reader-reduced movie equal, chunk offsets shifted uniformly by the size of udta in the fast-start layout and not at all otherwise). Reference calendar: civil-from-days, written independently. Distinct by (udta bytes, packed language).", if ctx.thorough { "" } else { ", plus Jan 1 / Feb 28 / Feb 29 or Mar 1 / Mar 1 / Dec 31 of every year to 9999 at 0 and 86399" }),
+            rule: format!("creation times: every day from 1970-01-01 to {y:04}-{m:02}-{d:02} at seconds-of-day {secs:?}{}; all 17576 lower-case three-letter language codes on A/V files (every track's mdhd); the product of 10 titles (empty, 1-4 byte scalars, 255/256/70000 bytes, embedded NUL) x 4 creation times x 10 language values (3 well-formed, 7 malformed - for those only well-formedness is demanded) x 0-2 frames x 4 codec/audio/layout configurations, each also compared with the same history without metadata (reader-reduced movie equal, chunk offsets shifted uniformly by the size of udta in the fast-start layout and not at all otherwise). Builder chains (with_metadata(title) then set_create_time / set_language in either order) must equal the complete Metadata value. Reference calendar: civil-from-days, written independently. Distinct by (udta bytes, packed language).", if ctx.thorough { "" } else { ", plus Jan 1 / Feb 28 / Feb 29 or Mar 1 / Mar 1 / Dec 31 of every year to 9999 at 0 and 86399" }),
             bound: if ctx.thorough { "every day of years 1970-9999".into() } else { "every day 1970-2110, calendar-special days to 9999".to_string() },
             exhaustive: true,
             assumptions: vec!["termination for creation times up to u64::MAX is C12's child-process check".into()],
